@@ -33,6 +33,8 @@ func streamClaims(c *ctx) {
 		t := qClaims(out)
 		if err != nil {
 			t = qClaims(cwt.Claims{})
+		} else if dup, _, wf := cborHasDupKey(d); wf && dup {
+			c.fail(failure{Op: "claims-dup-key", What: "a claim set holding a duplicate map key (at some depth) is accepted in struct form", Input: line, Observed: "decoded without error", Expected: "an error", Case: line})
 		}
 		c.addCase(fmt.Sprintf("ClDec %s %s %s", qHex(d), qB(err == nil), t), line+fmt.Sprintf(" => ok=%v", err == nil))
 		c.nontriv(fmt.Sprintf("claims-dec|%s|%v", tag, err == nil))
@@ -98,7 +100,12 @@ func streamClaims(c *ctx) {
 			case 6:
 				v = &citem{kind: 4, l: []*citem{{kind: 0, n: uint64(c.r.intn(300))}, {kind: 0, n: 7}}}
 			case 7:
-				v = &citem{kind: 6, n: pick(c.r, []uint64{0, 1, 2, 3, 24, 55799, 99}), v: pick(c.r, []*citem{{kind: 0, n: 5}, {kind: 3, b: []byte("t")}, {kind: 2, b: []byte{9}}})}
+				// (tag 0 only on other content than text: RFC 3339 parsing of tag-0 text is outside the model)
+				tn := pick(c.r, []uint64{0, 1, 2, 3, 24, 55799, 99})
+				v = &citem{kind: 6, n: tn, v: pick(c.r, []*citem{{kind: 0, n: 5}, {kind: 3, b: []byte("t")}, {kind: 2, b: []byte{9}}})}
+				if tn == 0 && v.v.kind == 3 {
+					v.v = &citem{kind: 0, n: 5}
+				}
 			case 8:
 				v = &citem{kind: 5, m: [][2]*citem{{{kind: 0, n: 1}, {kind: 0, n: 1}}, {{kind: 0, n: 1, width: 1}, {kind: 0, n: 2}}}} // a repeated key inside a value
 			default:
@@ -110,7 +117,7 @@ func streamClaims(c *ctx) {
 	}
 	for _, h := range []string{"a0", "f6", "f7", "80", "01", "40", "a10163697373", "a1613163697373", "a20163697373016161", "a201616161316162", "a2613161610161 62", "a2186301186302",
 		"a104c101", "a104c24101", "a1041bffffffffffffffff", "a10783010203", "a107c2410a", "a2f601f702", "a2f501f502", "a2f90000 01f9800002", "a11863a201010102",
-		"a101c06161", "a101c16161", "a104c161 61", "a1c10161 61", "bf016161ff", "a1017f6161ff", "a1" + "3b8000000000000000" + "01", "a201616118016162", "a10161ff", "a161ff01"} {
+		"a101c16161", "a121a20101180102", "a1187ba1187ca20101180102", "a104c161 61", "a1c10161 61", "bf016161ff", "a1017f6161ff", "a1" + "3b8000000000000000" + "01", "a201616118016162", "a10161ff", "a161ff01"} {
 		b, err := hex.DecodeString(stripSp(h))
 		if err != nil {
 			panic(h)
@@ -127,4 +134,87 @@ func stripSp(s string) string {
 		}
 	}
 	return string(out)
+}
+
+// cborHasDupKey walks a well-formed definite-length item and reports whether any map, at any depth, holds a key twice
+// (integers compared by value whatever their head width, other keys by their bytes). Independent of the CBOR library.
+func cborHasDupKey(b []byte) (dup bool, rest []byte, ok bool) {
+	if len(b) == 0 {
+		return false, nil, false
+	}
+	mt, ai := b[0]>>5, b[0]&31
+	b = b[1:]
+	var n uint64
+	switch {
+	case ai < 24:
+		n = uint64(ai)
+	case ai == 24 && len(b) >= 1:
+		n, b = uint64(b[0]), b[1:]
+	case ai == 25 && len(b) >= 2:
+		n, b = uint64(b[0])<<8|uint64(b[1]), b[2:]
+	case ai == 26 && len(b) >= 4:
+		n, b = uint64(b[0])<<24|uint64(b[1])<<16|uint64(b[2])<<8|uint64(b[3]), b[4:]
+	case ai == 27 && len(b) >= 8:
+		for i := 0; i < 8; i++ {
+			n = n<<8 | uint64(b[i])
+		}
+		b = b[8:]
+	default:
+		return false, nil, false
+	}
+	switch mt {
+	case 0, 1, 7:
+		return false, b, true
+	case 2, 3:
+		if uint64(len(b)) < n {
+			return false, nil, false
+		}
+		return false, b[n:], true
+	case 4:
+		for i := uint64(0); i < n; i++ {
+			d, r, k := cborHasDupKey(b)
+			if !k {
+				return false, nil, false
+			}
+			dup = dup || d
+			b = r
+		}
+		return dup, b, true
+	case 5:
+		seen := map[string]bool{}
+		for i := uint64(0); i < n; i++ {
+			start := b
+			d, r, k := cborHasDupKey(b)
+			if !k {
+				return false, nil, false
+			}
+			kb := start[:len(start)-len(r)]
+			id := string(kb)
+			if len(kb) > 0 && kb[0]>>5 <= 1 { // integer key: by value
+				var v uint64
+				for _, x := range kb[1:] {
+					v = v<<8 | uint64(x)
+				}
+				if kb[0]&31 < 24 {
+					v = uint64(kb[0] & 31)
+				}
+				id = fmt.Sprintf("int%d:%d", kb[0]>>5, v)
+			}
+			if seen[id] {
+				dup = true
+			}
+			seen[id] = true
+			dup = dup || d
+			b = r
+			d, r, k = cborHasDupKey(b)
+			if !k {
+				return false, nil, false
+			}
+			dup = dup || d
+			b = r
+		}
+		return dup, b, true
+	default: // tag
+		return cborHasDupKey(b)
+	}
 }
